@@ -23,7 +23,7 @@ RULE = (
 ASSUMPTIONS = [
     "a non-polynomial operand contributes either no name or the default name q0 to the union "
     "(aspolynomial gives constants the name q0); both are accepted",
-    "coefficient dtype of aligned results is not asserted here (C12 owns dtypes)",
+    "each aligned polynomial keeps its input's coefficient dtype (bool/int64/float64/complex128 inputs)",
     "operands that already share one name tuple may keep it even if it is not in numeric order",
 ]
 
@@ -33,7 +33,8 @@ FUNCS = ["align_polynomials", "align_shape", "align_indeterminants", "align_expo
 @st.composite
 def case_st(draw):
     n = draw(st.sampled_from([1, 2, 2, 2, 3, 3, 4]))
-    ops = draw(gen.operand_family(n=n, numeric_prob=0.2, max_terms=6, max_exp=3))
+    ops = draw(gen.operand_family(n=n, numeric_prob=0.2, max_terms=6, max_exp=3,
+                                  kinds=draw(st.sampled_from(["ifc", "ifc", "ifcb", "b"]))))
     opts = {}
     if draw(st.integers(0, 2)) == 0:
         opts = draw(st.dictionaries(
@@ -91,6 +92,11 @@ def check_case(case, ctx):
         diff = first_diff(g, expect)
         if diff:
             return fail("value", "result %d is not its input: %s" % (i, diff))
+    # an aligned result denotes its input: same coefficient dtype
+    from ..conv import desc_dtype
+    for i, (o, d) in enumerate(zip(out, case["ops"])):
+        if "num" not in d and str(o.dtype) != desc_dtype(d):
+            return fail("dtype", "result %d has dtype %s, its input %s" % (i, o.dtype, desc_dtype(d)))
     poly_names = set()
     for d in case["ops"]:
         if "num" not in d:
